@@ -168,6 +168,9 @@ func (vc *VC) addSpec(sf *SpecFile, pkg *packages.Package) error {
 	for _, g := range sf.GFields {
 		nt, err := vc.resolveNamed(g.Type, pkg)
 		if err != nil {
+			if pkg == nil {
+				continue // trusted spec: ghost field of a dependency that is not loaded for this property
+			}
 			return fmt.Errorf("ghost field %s.%s: %v", g.Type, g.Field, err)
 		}
 		vc.gfields[typeKey(nt)+"."+g.Field] = g
